@@ -427,3 +427,43 @@ def const_value(ctx, f, e):
                 if e.attr in ctx.repo.classes[c].class_attrs:
                     return const_num(ctx.repo.classes[c].class_attrs[e.attr])
     return None
+
+
+def norm_facts(node, stop=None):
+    """facts_at(node) as a set of (canonical text, polarity), with negative comparison operators folded into the polarity:
+    (a != b, False) == (a == b, True); `not x` likewise. Use this instead of looking for an `if` with a given test: it does
+    not matter whether a condition is an if/elif branch, a guard clause (`if not c: raise`) before the statement, or part
+    of a conjunction."""
+    neg = {ast.NotEq: ast.Eq, ast.NotIn: ast.In, ast.IsNot: ast.Is}
+    out = set()
+    for e, pol in facts_at(node, stop):
+        while isinstance(e, ast.UnaryOp) and isinstance(e.op, ast.Not):
+            e, pol = e.operand, not pol
+        if isinstance(e, ast.Compare) and len(e.ops) == 1 and type(e.ops[0]) in neg:
+            e = ast.Compare(left=e.left, ops=[neg[type(e.ops[0])]()], comparators=e.comparators)
+            pol = not pol
+        out.add((CT(U(e)), pol))
+    return out
+
+
+def holds_at(node, cond_src, stop=None):
+    """Is the condition (source text) among the facts that hold at `node`?"""
+    return (CT(cond_src), True) in norm_facts(node, stop)
+
+
+def mentions(ctx, f, node, word):
+    """Does `node` mention `word` (e.g. a flag name), directly or through a class / module constant it references?"""
+    if word in U(node):
+        return True
+    for x in ast.walk(node):
+        v = None
+        if isinstance(x, ast.Attribute) and isinstance(x.value, ast.Name):
+            owner = f.cls.name if (x.value.id in ("self", "cls") and f.cls is not None) else x.value.id
+            if owner in ctx.repo.classes:
+                for c in ctx.repo.mro(owner):
+                    v = v or ctx.repo.classes[c].class_attrs.get(x.attr)
+        elif isinstance(x, ast.Name) and x.id in f.module.globals:
+            v = f.module.globals[x.id]
+        if v is not None and word in U(v):
+            return True
+    return False
